@@ -197,6 +197,7 @@ fn check_rpsi(r: &Rpsi, fci: &[u8], st: &mut Stats) -> Verdict {
                 st.nontrivial();
             }
             ensure!(pt == wpt, "C15:Rpsi:payload_type", "payload_type() = {pt}, wire {wpt}; fci {}", hex(fci));
+            ensure!(ignored <= 8, "C15:Rpsi:bit_string-ignored-bits-exceed-the-last-byte", "bit_string() = ({}, {ignored}): documented as the number of bits to remove from the last byte; fci {}", hex(&data), hex(fci));
             let got = bits_of(&data, ignored);
             ensure!(got.as_ref() == Some(&wbits), "C15:Rpsi:bit_string", "bit_string() = ({}, {ignored}) = {:?} bits, RFC 4585 gives {} bits; fci {}", hex(&data), got.map(|b| b.len()), wbits.len(), hex(fci));
             // zero-copy: the returned slice lies inside the FCI
@@ -329,6 +330,31 @@ fn scramble(i: u64) -> u32 {
     (i as u32).wrapping_mul(0x9e37_79b1).rotate_left(13) ^ 0x5bd1_e995
 }
 
+/// FCI lists whose byte offsets no longer fit 16 bits: NACK / SLI beyond 16384 words, FIR beyond 8192 entries,
+/// up to the largest list one packet can carry; raw `F::parse` and inside a feedback packet
+fn long_lists() -> Vec<FciCase> {
+    let mut v = Vec::new();
+    let pattern = |words: usize, stride: u32| -> Vec<u8> {
+        let mut b = Vec::with_capacity(4 * words);
+        for i in 0..words as u32 {
+            b.extend_from_slice(&(i.wrapping_mul(stride) ^ 0x0001_8001).to_be_bytes());
+        }
+        b
+    };
+    for words in [16383usize, 16384, 16385, 16386, 32768, 65533] {
+        for raw in [true, false] {
+            v.push(FciCase { transport: true, format: 1, fci: Bytes(pattern(words, 0x0011_0003)), padding: 0, raw }); // NACK
+            v.push(FciCase { transport: false, format: 2, fci: Bytes(pattern(words, 0x0004_2041)), padding: 0, raw }); // SLI
+        }
+    }
+    for entries in [8191usize, 8192, 8193, 16384, 32766] {
+        for raw in [true, false] {
+            v.push(FciCase { transport: false, format: 4, fci: Bytes(pattern(2 * entries, 0x0101_0101)), padding: if raw { 0 } else { 4 }, raw });
+        }
+    }
+    v
+}
+
 pub fn c15(tier: Tier) -> Check {
     let sli_random: u64 = tier.pick(1 << 20, 1 << 24);
     Check {
@@ -339,6 +365,7 @@ pub fn c15(tier: Tier) -> Check {
                SLI (13,13,6) per word (via Debug); RPSI payload type and bit string as bits (PB larger than the string: either-zone); PLI Ok => empty body; non-trivial = decoded >= 1 entry/bit",
         assumptions: vec!["the statement gives an only-if for success: a matching kind/format is not required to decode (C05 requires it for built packets)"],
         legs: vec![
+            Box::new(ListLeg { name: "lists-beyond-64KiB", cases: long_lists(), oracle: c15_oracle }),
             Box::new(RandomLeg { name: "random-fci", cases: tier.pick(150_000, 4_000_000), make: Box::new(fci_case), oracle: c15_oracle }),
             Box::new(SweepLeg {
                 name: "gating-kind-x-format",
